@@ -4,10 +4,15 @@
    prov:label — the RDF predicate chosen by the writer's cascade of substring tests is
    read back by the reader (predicate_mapper + kind-dependent substring tests) as that
    same attribute.  The domain is finite and generated from /repo, so the proof is a
-   computation over the whole domain.  The quad-level round trip is decided per run by
-   the direct oracle (set-based against unified(), decoder re-run on shuffled quads). *)
+   computation over the whole domain.  Quad level (Rdfq.v): the triples written for a
+   relation (binary triple, qualified node, what the node carries) and the relations the
+   reader rebuilds from a graph; proved to round-trip over the systematic family of shapes
+   of the quantifier — every relation kind x identified/anonymous x subset of optional
+   arguments x kind of extra attribute, alone and in pairs on one subject — with opaque
+   values (partial: the family is finite; arbitrary sets of relations are decided per run
+   by the direct oracle, set-based against unified(), decoder re-run on shuffled quads). *)
 From Coq Require Import String List Bool.
-From Prov Require Import Str Tables Rdf RdfProofs.
+From Prov Require Import Str Tables Rdf RdfProofs Rdfq RdfqProofs.
 Import ListNotations.
 Open Scope string_scope.
 
@@ -30,6 +35,18 @@ Example C07_some_predicates :
   = [P "atTime"; P "entity"; P "entity"; P "hadActivity"; P "hadActivity"; P "agent"; P "hadActivity"; P "entity";
      P "hadGeneration"; P "hadPlan"; P "activity"].
 Proof. vm_compute. reflexivity. Qed.
+
+(* quad level: every shape of the quantifier, alone and in pairs on one subject, comes back as itself *)
+Theorem C07_shapes_roundtrip : forallb single_ok relation_kind_names = true.
+Proof. exact rdfq_single_roundtrip. Qed.
+Print Assumptions C07_shapes_roundtrip.
+Theorem C07_shape_pairs_roundtrip : forallb pair_ok relation_kind_names = true.
+Proof. exact rdfq_pair_roundtrip. Qed.
+Print Assumptions C07_shape_pairs_roundtrip.
+Example C07_shape_family :
+  length relation_kind_names = 14%nat /\
+  fold_left (fun a k => (a + length (shapes_of k))%nat) relation_kind_names 0%nat > 200.
+Proof. exact rdfq_family_size. Qed.
 
 (* the open finding C07-F1: custom attribute names that contain the tested substrings *)
 Lemma C07_F1_refuted :
